@@ -29,6 +29,8 @@ def run(ctx):
     ctx.rule("R07.d", "depends model, path resolution: Parameters._spec_to_obj interpreted for a.x / a.b.x / a.b.c.x / a.b.c.x:bounds / a.b.param with every link of the path in turn holding None: "
                       "the parameters to watch are exactly one per existing holder along the path (so that attaching an object at ANY level is noticed) plus the leaves iff the whole path is attached", floor=1)
     ctx.rule("R07.u", "dispatch model, snapshot: Parameters._call_watcher serves a watcher that was unregistered after the dispatch snapshot was taken -- when the first dependency watcher of an event re-resolves the parent's dependencies, the old watchers of the other methods are the only carriers of that event", floor=1)
+    ctx.rule("R07.z", "comparator model, is_equal (shared with R03.z): two DISTINCT objects of a type the comparator has no rule for are a change -- the rebinding of a path of depth >= 2 is "
+                      "driven by the parent's changes-only watcher on the intermediate object; a replacement that merely compares equal must still be announced", floor=1)
     ctx.rule("R07.r", "depends model, method-name recursion (shared with R06.r): _params_depended_on resolves the specs of a named method the way the caller asked for the whole tree -- with "
                       "dynamic=False (class creation) a sub-object path declared through a method stays a dynamic dependency instead of being resolved against the class default object", floor=1)
     ctx.rule("R07.p", "registration model (shared with R03.p): Parameters._register_watcher removes exactly the watcher it is given -- for a sub-object attached to two parents, whose dependency "
@@ -85,3 +87,5 @@ def run(ctx):
     from checks import register_model
     register_model.report(ctx, "R07.p")
     depends_model.report_method_recursion(ctx, "R07.r")
+    from checks.shared import is_equal_model
+    is_equal_model(ctx, "R07.z")
